@@ -183,13 +183,24 @@ pub struct Printer {
     pub naming: Naming,
     /// spell `?`, `*`, `+`, `{n}` as `{0,1}`, `{0,}`, `{1,}`, `{n,n}`
     pub verbose_quantifiers: bool,
+    /// name group i by the i-th letter (a, b, ...) instead of `gi`: names that collide with the
+    /// literals of the pattern spaces
+    pub letter_names: bool,
     out: String,
     next_group: u32,
 }
 
 impl Printer {
     pub fn new(naming: Naming) -> Printer {
-        Printer { naming, verbose_quantifiers: false, out: String::new(), next_group: 0 }
+        Printer { naming, verbose_quantifiers: false, letter_names: false, out: String::new(), next_group: 0 }
+    }
+
+    fn gname(&self, g: u32) -> String {
+        if self.letter_names && (1..=26).contains(&g) {
+            ((b'a' + (g - 1) as u8) as char).to_string()
+        } else {
+            format!("g{}", g)
+        }
     }
 
     pub fn print(mut self, n: &Node) -> String {
@@ -215,10 +226,12 @@ impl Printer {
                 let _ = write!(self.out, "\\{}", g);
             }
             Naming::Angle => {
-                let _ = write!(self.out, "\\k<g{}>", g);
+                let nm = self.gname(g as u32);
+                let _ = write!(self.out, "\\k<{}>", nm);
             }
             Naming::Python => {
-                let _ = write!(self.out, "(?P=g{})", g);
+                let nm = self.gname(g as u32);
+                let _ = write!(self.out, "(?P={})", nm);
             }
             Naming::Relative => {
                 // -1 is the group opened most recently
@@ -233,7 +246,8 @@ impl Printer {
                 let _ = write!(self.out, "\\k<{}>", g);
             }
             Naming::Quote => {
-                let _ = write!(self.out, "\\k'g{}'", g);
+                let nm = self.gname(g as u32);
+                let _ = write!(self.out, "\\k'{}'", nm);
             }
         }
     }
@@ -244,10 +258,12 @@ impl Printer {
                 let _ = write!(self.out, "(?({})", g);
             }
             Naming::Angle | Naming::Quote => {
-                let _ = write!(self.out, "(?(<g{}>)", g);
+                let nm = self.gname(g as u32);
+                let _ = write!(self.out, "(?(<{}>)", nm);
             }
             Naming::Python => {
-                let _ = write!(self.out, "(?('g{}')", g);
+                let nm = self.gname(g as u32);
+                let _ = write!(self.out, "(?('{}')", nm);
             }
         }
     }
@@ -316,17 +332,21 @@ impl Printer {
                 match self.naming {
                     Naming::Numbered | Naming::Relative | Naming::NumericName => self.out.push('('),
                     Naming::Angle | Naming::Quote => {
-                        let _ = write!(self.out, "(?<g{}>", g);
+                        let nm = self.gname(g as u32);
+                let _ = write!(self.out, "(?<{}>", nm);
                     }
                     Naming::Python => {
-                        let _ = write!(self.out, "(?P<g{}>", g);
+                        let nm = self.gname(g as u32);
+                let _ = write!(self.out, "(?P<{}>", nm);
                     }
                     Naming::Mask(m) => {
                         if m & (1 << (g - 1)) != 0 {
                             if g % 2 == 0 {
-                                let _ = write!(self.out, "(?P<g{}>", g);
+                                let nm = self.gname(g as u32);
+                let _ = write!(self.out, "(?P<{}>", nm);
                             } else {
-                                let _ = write!(self.out, "(?<g{}>", g);
+                                let nm = self.gname(g as u32);
+                let _ = write!(self.out, "(?<{}>", nm);
                             }
                         } else {
                             self.out.push('(');
@@ -449,6 +469,13 @@ pub fn to_pattern(n: &Node) -> String {
 
 pub fn to_pattern_named(n: &Node, naming: Naming) -> String {
     Printer::new(naming).print(n)
+}
+
+/// `(?<a>..)`, `(?<b>..)`, ... with `\k<a>` / `(?(<a>)..)` references
+pub fn to_pattern_letter_names(n: &Node) -> String {
+    let mut p = Printer::new(Naming::Angle);
+    p.letter_names = true;
+    p.print(n)
 }
 
 impl Node {
